@@ -184,11 +184,20 @@ func c04R4(c *Ctx, r *Report) {
 	if ci != nil {
 		// who-may-call: the flow-insensitive constant index (known finding C04.R1) may only serve the reads that
 		// require a compile-time index; every other access (stores, dynamic arrays) must use the run-time value
+		// (the restriction exists because of the flow-insensitive value; where the analysis drops the values of
+		// variables when a function has been walked — C04.R1's writer-side invariant — the value constArrayIndex
+		// sees is a constant's and any access path may use it)
 		allowed := map[string]bool{"lowerIndexAddr": true, "lowerIndexValue": true}
+		writerDrops := false
+		if cf, ck := c.fieldObj(pkgSymbols, "Symbol", "ConstValue"), c.lookupObj(pkgSymbols, "SymbolConstant"); cf != nil && ck != nil {
+			if kc, ok := ck.(*types.Const); ok {
+				writerDrops = c04WriterDropsVariables(c, newReport("scratch", "quick"), "C04.R3", cf, kc)
+			}
+		}
 		for _, fn := range c.AllFns(pkgMIRGen) {
 			for _, cl := range callsIn(fn.Decl.Body, true) {
 				if isCallTo(fn.Info(), cl, ci.Obj) {
-					r.Check(allowed[fn.Obj.Name()], "C04.R3", fn.Name(), "calls constArrayIndex", c.pos(cl.Pos()),
+					r.Check(allowed[fn.Obj.Name()] || writerDrops, "C04.R3", fn.Name(), "calls constArrayIndex", c.pos(cl.Pos()),
 						"a further access path resolves its index through the flow-insensitive compile-time value instead of the run-time value + bounds check: for a reassigned or loop-carried index the access touches a different element than the one indexed, without any run-time check")
 				}
 			}
@@ -1096,6 +1105,51 @@ func c04WriterDropsVariables(c *Ctx, r *Report, rule string, constField *types.V
 		if w.Obj.Type().(*types.Signature).Recv() != nil {
 			continue
 		}
+		return false
+	}
+	// the set is never emptied without dropping the values it stands for: a loop over S that deletes from S also
+	// sets ConstValue = nil under the kind test (a module-level `let g := 0` recorded before the first function is
+	// walked would otherwise stay visible inside every function: `a[g]` read a[0] whatever g was at run time)
+	leaks := false
+	for _, fn := range c.AllFns(pkgHIRAn) {
+		info := fn.Info()
+		ast.Inspect(fn.Decl.Body, func(x ast.Node) bool {
+			rs, ok := x.(*ast.RangeStmt)
+			if !ok || objOf(info, rs.X) != set {
+				return true
+			}
+			deletes, nilled, kindTest := false, false, false
+			ast.Inspect(rs.Body, func(y ast.Node) bool {
+				switch z := y.(type) {
+				case *ast.CallExpr:
+					if id, ok := z.Fun.(*ast.Ident); ok && id.Name == "delete" && len(z.Args) == 2 && objOf(info, z.Args[0]) == set {
+						deletes = true
+					}
+				case *ast.AssignStmt:
+					if len(z.Lhs) == 1 && len(z.Rhs) == 1 {
+						if sel, ok := ast.Unparen(z.Lhs[0]).(*ast.SelectorExpr); ok && fieldOf(info, sel) == constField {
+							if tv, ok := info.Types[z.Rhs[0]]; ok && tv.IsNil() {
+								nilled = true
+							}
+						}
+					}
+				case *ast.BinaryExpr:
+					if z.Op == token.NEQ && (constObj(info, z.Y) == constKind || constObj(info, z.X) == constKind) {
+						kindTest = true
+					}
+				}
+				return true
+			})
+			if deletes {
+				if !r.Check(nilled && kindTest, rule, fn.Name(), "a loop that empties the set of symbols with a recorded value drops the values of the variables among them", c.pos(rs.Pos()),
+					"the record of which symbols carry a compile-time value is cleared while the values stay on the symbols: a value recorded for a module-level variable before a function is walked is still there when the function's indices are folded — `let g := 0; fn main() { let a: [3]i32 = [10, 20, 30]; set(); io::Println(a[g]); } fn set() { g = 2; }` printed 10") {
+					leaks = true
+				}
+			}
+			return true
+		})
+	}
+	if leaks {
 		return false
 	}
 	// the dropping loop
